@@ -27,7 +27,7 @@ func init() {
 func genC04(ctx *fw.Ctx) []fw.Case {
 	var cases []fw.Case
 	srcs := inputSources(ctx, 120, 2000)
-	srcs = append(srcs, tortureSources(ctx, ctx.Pick(200, 5000))...)
+	srcs = append(srcs, tortureSources(ctx, ctx.Pick(200, 40000))...)
 	for _, s := range srcs {
 		s := s
 		cases = append(cases, fw.Case{ID: s.ID, Run: func(r *fw.Rec) { c04Source(r, s) }})
